@@ -11,6 +11,13 @@ R03.6 header-option-reaches-SFile.write: the user header reaches SFile.write on 
 text-chunk-native: a text handle in any state left by Recfile.open (created or reopened) converts the chunk to native
 byte order before Records::Write.
 
+R03.1b decides "the C++ constructor demands a dtype for mode m" by constant propagation through Records::Records and the
+helpers it calls (mode = the literal, dtype = NULL, everything else unknown: flat constant lattice joined at merges), so the
+condition may be spelled over the mode string, over action bits derived from it by a helper, with early returns ...; R03.2
+reads an attribute that is a cache of the stored dtype (always stored together with self._dtype as a function of it, class
+invariant checked on the paths of every method that stores either) as that function of self._dtype; R03.3c takes the number in
+the SIZE line of a new file from the first line of the text handed to the header writer.
+
 The rules are stated over *paths* (python: a small symbolic executor that follows
 calls into helpers of the same class / module and substitutes temporaries; C++:
 the ordered stream events -- seek to start / end / elsewhere, output -- of a
@@ -44,7 +51,7 @@ MANIFEST = dict(
     note="Not decided: byte-level equality of the concatenation, libc/file-system semantics, numpy dtype comparison "
          "semantics. Trusted: CPython ast, clang 14 AST, networkx dominators, SWIG naming convention, LP64.",
     technique="static analysis: CFG dominance / def-use, path-sensitive symbolic execution with helper inlining over Python ast, "
-              "stream-event summaries over the clang AST, printf-format agreement",
+              "stream-event summaries and constant propagation (flat lattice) over the clang AST / CFG, printf-format agreement",
 )
 
 BYTE_WRITERS = ("write_header_and_update_offset", "update_row_count", "Write")
@@ -84,12 +91,13 @@ def run(chk):
             raise AnalysisError("C++ anchor %s not found" % nm)
         chk.analysed_unit(nm)
 
-    r03_1(chk, repo, sf_write, SFile_open, Rec_open, cfun)
+    ceff = _CEff(cfun)
+    r03_1(chk, repo, sf_write, SFile_open, Rec_open, cfun, decls, ceff.lookup)
     r03_2(chk, repo, SFile_write)
     measures = []       # (who, expression, chunk parameter, where): what the Python side adds to / records as the row count
-    r03_3(chk, repo, measures)
-    ceff = _CEff(cfun)
-    r03_4(chk, repo, cfun, ceff)
+    first_fmts = set()  # printf-style formats that _write_header applies itself to produce the SIZE line of a new file
+    r03_3(chk, repo, measures, first_fmts)
+    r03_4(chk, repo, cfun, ceff, first_fmts)
     r03_5(chk, cfun, ceff)
     r03_6(chk, repo, sf_write, cfun)
     r03_7(chk, repo, Rec_write, measures, ceff)
@@ -274,7 +282,10 @@ def _module_const(mod, name):
             return None
     if binds != 1:
         return None
-    if not (isinstance(v, ast.Constant) or (isinstance(v, ast.Tuple) and all(isinstance(e, ast.Constant) for e in v.elts))):
+    def immutable(e):
+        return isinstance(e, ast.Constant) or (isinstance(e, ast.Tuple) and all(immutable(y) for y in e.elts))
+
+    if not immutable(v):
         # a mutable literal: every read must be a plain lookup
         for p in ast.walk(mod.tree):
             for c in ast.iter_child_nodes(p):
@@ -916,7 +927,464 @@ def _mode_alternatives(v, fi, depth=0):
 
 
 # ---------------------------------------------------------------------------
-def r03_1(chk, repo, sf_write, SFile_open, Rec_open, cfun):
+# Constant propagation over the C++ CFG (used by R03.1b): which nodes of a function can be reached when some of its
+# parameters are known constants (a mode string that originates in the package, a NULL dtype) and everything else is unknown.
+#
+# Abstract values: a python int (integers, characters, booleans, NULL = 0), a python str (std::string / const char *) or
+# unknown (absent from the environment) -- the flat constant lattice, joined at control-flow merges, so every input that
+# agrees with the known parameters is covered.  Locals are keyed ('l', name), members of `this` ('m', name).  Calls to
+# functions whose body is available are followed (parameters bound to the abstract arguments, members shared when the callee
+# is a method called on `this`); what cannot be evaluated is unknown and forgets every object it may write: the left side of
+# an assignment, an object a non-const method is called on, an object handed over by non-const reference or by address.
+# Locals / members whose address is taken or that are bound to a non-const reference are never tracked.
+# ---------------------------------------------------------------------------
+class _CDead(Exception):
+    """the expression being evaluated never completes normally (a callee that always throws)"""
+
+
+_C_WRAPPERS = ("ImplicitCastExpr", "ParenExpr", "CStyleCastExpr", "ConstantExpr", "ExprWithCleanups", "MaterializeTemporaryExpr",
+               "CXXBindTemporaryExpr", "CXXFunctionalCastExpr", "CXXStaticCastExpr", "CXXReinterpretCastExpr", "CXXConstCastExpr")
+_C_CONST_METHODS = ("c_str", "data", "size", "length", "empty", "compare", "find", "rfind", "substr", "capacity", "max_size")
+_C_INT_OPS = {"+": lambda a, b: a + b, "-": lambda a, b: a - b, "*": lambda a, b: a * b, "&": lambda a, b: a & b,
+              "|": lambda a, b: a | b, "^": lambda a, b: a ^ b, "<<": lambda a, b: a << b if 0 <= b < 64 else None,
+              ">>": lambda a, b: a >> b if 0 <= b < 64 else None,
+              "==": lambda a, b: int(a == b), "!=": lambda a, b: int(a != b), "<": lambda a, b: int(a < b),
+              "<=": lambda a, b: int(a <= b), ">": lambda a, b: int(a > b), ">=": lambda a, b: int(a >= b)}
+
+
+def _c_kids(n):
+    return [c for c in (n.get("inner", []) or []) if isinstance(c, dict) and c.get("kind")]
+
+
+class _CConst:
+    def __init__(self, lookup, decls, budget=60000):
+        self.lookup = lookup
+        self.budget = budget
+        self.cfgs = {}
+        self.scan = {}
+        self.statics = {}
+        clash = set()
+        for d in decls:
+            for x in cfront.walk(d):
+                if x.get("kind") == "VarDecl" and x.get("name") and str(x.get("type", {}).get("qualType", "")).startswith("const ") \
+                        and "*" not in x["type"]["qualType"] and "&" not in x["type"]["qualType"]:
+                    init = [cfront.strip(c) for c in _c_kids(x)]
+                    if init and init[-1].get("kind") == "IntegerLiteral":
+                        v = int(init[-1]["value"])
+                        if x["name"] in self.statics and self.statics[x["name"]] != v:
+                            clash.add(x["name"])
+                        self.statics[x["name"]] = v
+                    else:
+                        clash.add(x["name"])
+        for nm in clash:
+            self.statics.pop(nm, None)
+
+    # -- per function facts ---------------------------------------------------------------------------------------------
+    def _scan(self, decl):
+        """(names declared in the function, locals never tracked, members never tracked)"""
+        key = id(decl)
+        if key not in self.scan:
+            declared, ul, um = set(), set(), set()
+
+            def lval(n, tl, tm):
+                s = n
+                while isinstance(s, dict) and s.get("kind") in _C_WRAPPERS and _c_kids(s):
+                    s = _c_kids(s)[-1 if s["kind"] == "CXXFunctionalCastExpr" else 0]
+                if s.get("kind") == "DeclRefExpr":
+                    tl.add(s.get("referencedDecl", {}).get("name"))
+                elif s.get("kind") == "MemberExpr" and _c_kids(s) and cfront.strip(_c_kids(s)[0]).get("kind") == "CXXThisExpr":
+                    tm.add(s.get("name"))
+
+            for x in cfront.walk(decl):
+                k = x.get("kind")
+                if k in ("VarDecl", "ParmVarDecl") and x.get("name"):
+                    declared.add(x["name"])
+                    qt = str(x.get("type", {}).get("qualType", ""))
+                    if k == "VarDecl" and "&" in qt and not qt.startswith("const "):
+                        for c in _c_kids(x):
+                            lval(c, ul, um)
+                    if k == "VarDecl" and x.get("storageClass") == "static":
+                        ul.add(x["name"])
+                elif k == "UnaryOperator" and x.get("opcode") == "&" and _c_kids(x):
+                    lval(_c_kids(x)[0], ul, um)
+                elif k == "LambdaExpr":
+                    for y in cfront.walk(x):
+                        if y.get("kind") == "DeclRefExpr":
+                            ul.add(y.get("referencedDecl", {}).get("name"))
+                        elif y.get("kind") == "MemberExpr":
+                            um.add(y.get("name"))
+            self.scan[key] = (declared, ul, um)
+        return self.scan[key]
+
+    def _cfg(self, decl):
+        key = id(decl)
+        if key not in self.cfgs:
+            self.cfgs[key] = cfront.CCFG(decl)
+        return self.cfgs[key]
+
+    # -- environment ----------------------------------------------------------------------------------------------------------
+    @staticmethod
+    def _join(a, b):
+        if a is None:
+            return dict(b)
+        return {k: v for k, v in a.items() if k in b and type(b[k]) is type(v) and b[k] == v}
+
+    def _lkey(self, n, ctx):
+        """environment key of an lvalue expression (a local / parameter or a member of this), else None"""
+        s = n
+        while isinstance(s, dict) and s.get("kind") in _C_WRAPPERS and _c_kids(s):
+            s = _c_kids(s)[-1 if s["kind"] == "CXXFunctionalCastExpr" else 0]
+        if s.get("kind") == "DeclRefExpr" and s.get("referencedDecl", {}).get("kind") in ("VarDecl", "ParmVarDecl"):
+            nm = s["referencedDecl"].get("name")
+            return ("l", nm) if nm in ctx["declared"] else None
+        if s.get("kind") == "MemberExpr" and _c_kids(s) and cfront.strip(_c_kids(s)[0]).get("kind") == "CXXThisExpr":
+            return ("m", s.get("name"))
+        return None
+
+    def _set(self, key, v, env, ctx):
+        if key is None:
+            return
+        if v is None or (key[0] == "l" and key[1] in ctx["ul"]) or (key[0] == "m" and key[1] in self.um):
+            env.pop(key, None)
+        else:
+            env[key] = v
+
+    def _havoc(self, n, env, ctx):
+        """forget everything the (not evaluated) expression / statement n may write"""
+        for x in cfront.walk(n):
+            k = x.get("kind")
+            kids = _c_kids(x)
+            if k in ("BinaryOperator", "CompoundAssignOperator") and kids and (k == "CompoundAssignOperator" or x.get("opcode") == "="):
+                self._set(self._lkey(kids[0], ctx), None, env, ctx)
+            elif k == "UnaryOperator" and x.get("opcode") in ("++", "--", "&") and kids:
+                self._set(self._lkey(kids[0], ctx), None, env, ctx)
+            elif k == "CXXOperatorCallExpr" and len(kids) >= 2:
+                nm = cfront.callee_name(x) or ""
+                if not (nm.startswith("operator") and nm[len("operator"):] in ("==", "!=", "[]", "<", ">", "<=", ">=", "+")):
+                    self._set(self._lkey(kids[1], ctx), None, env, ctx)
+                for a in kids[2:]:
+                    if self._by_ref(a):
+                        self._set(self._lkey(a, ctx), None, env, ctx)
+            elif k in ("CallExpr", "CXXMemberCallExpr") and kids:
+                c = cfront.strip(kids[0])
+                if k == "CXXMemberCallExpr" and c.get("kind") == "MemberExpr" and _c_kids(c):
+                    if cfront.strip(_c_kids(c)[0]).get("kind") == "CXXThisExpr":
+                        for key in [q for q in env if q[0] == "m"]:
+                            env.pop(key)
+                    elif c.get("name") not in _C_CONST_METHODS:
+                        self._set(self._lkey(_c_kids(c)[0], ctx), None, env, ctx)
+                elif self.lookup(cfront.callee_name(x)) is not None and ctx["method"]:
+                    for key in [q for q in env if q[0] == "m"]:
+                        env.pop(key)
+                for a in kids[1:]:
+                    if self._by_ref(a):
+                        self._set(self._lkey(a, ctx), None, env, ctx)
+            elif k == "VarDecl" and x.get("name"):
+                env.pop(("l", x["name"]), None)
+
+    @staticmethod
+    def _by_ref(a):
+        """is the argument expression an object handed over as such (no lvalue-to-rvalue conversion: by reference)?"""
+        s = a
+        while isinstance(s, dict) and s.get("kind") in _C_WRAPPERS and _c_kids(s):
+            if s.get("castKind") in ("LValueToRValue",):
+                return False
+            s = _c_kids(s)[-1 if s["kind"] == "CXXFunctionalCastExpr" else 0]
+        return s.get("kind") in ("DeclRefExpr", "MemberExpr")
+
+    # -- expressions --------------------------------------------------------------------------------------------------------
+    def ev(self, n, env, ctx):
+        k = n.get("kind")
+        kids = _c_kids(n)
+        if k in _C_WRAPPERS and kids:
+            v = self.ev(kids[-1 if k == "CXXFunctionalCastExpr" else 0], env, ctx)
+            ck = n.get("castKind")
+            if ck in ("IntegralToBoolean", "PointerToBoolean"):
+                return int(v != 0) if isinstance(v, int) else None
+            if ck in ("IntegralCast", "LValueToRValue", "NoOp", "ArrayToPointerDecay", "NullToPointer", "FunctionToPointerDecay",
+                      "ConstructorConversion", "UserDefinedConversion", None) or k == "ParenExpr":
+                qt = str(n.get("type", {}).get("qualType", ""))
+                if isinstance(v, int) and ck == "IntegralCast" and qt in ("char", "unsigned char", "signed char", "short", "unsigned short", "bool"):
+                    return None         # a narrowing conversion: not modelled
+                return v
+            return None
+        if k == "IntegerLiteral":
+            return int(n.get("value"))
+        if k == "CharacterLiteral":
+            return n.get("value") if isinstance(n.get("value"), int) else None
+        if k == "CXXBoolLiteralExpr":
+            return int(bool(n.get("value")))
+        if k in ("GNUNullExpr", "CXXNullPtrLiteralExpr"):
+            return 0
+        if k == "StringLiteral":
+            return _cstr(n.get("value"))
+        if k == "DeclRefExpr":
+            rd = n.get("referencedDecl", {})
+            nm = rd.get("name")
+            if rd.get("kind") in ("VarDecl", "ParmVarDecl"):
+                if nm in ctx["declared"]:
+                    return env.get(("l", nm))
+                return self.statics.get(nm)
+            return None
+        if k == "MemberExpr":
+            key = self._lkey(n, ctx)
+            if key is not None:
+                return env[key] if key in env else None
+            for c in kids:
+                self.ev(c, env, ctx)
+            return None
+        if k == "UnaryOperator" and kids:
+            op = n.get("opcode")
+            if op in ("++", "--"):
+                key = self._lkey(kids[0], ctx)
+                old = self.ev(kids[0], env, ctx)
+                new = (old + (1 if op == "++" else -1)) if isinstance(old, int) else None
+                if key is None:
+                    self._havoc(n, env, ctx)
+                self._set(key, new, env, ctx)
+                return old if n.get("isPostfix") else new
+            if op == "&":
+                self._set(self._lkey(kids[0], ctx), None, env, ctx)
+                return None
+            v = self.ev(kids[0], env, ctx)
+            if op == "!":
+                return int(not v) if isinstance(v, int) else None
+            if op in ("-", "+", "~") and isinstance(v, int):
+                return -v if op == "-" else (v if op == "+" else ~v)
+            return None
+        if k == "BinaryOperator" and len(kids) == 2:
+            op = n.get("opcode")
+            if op == "=":
+                v = self.ev(kids[1], env, ctx)
+                key = self._lkey(kids[0], ctx)
+                if key is None:
+                    self.ev(kids[0], env, ctx)
+                self._set(key, v, env, ctx)
+                return v
+            if op == ",":
+                self.ev(kids[0], env, ctx)
+                return self.ev(kids[1], env, ctx)
+            if op in ("&&", "||"):
+                a = self.ev(kids[0], env, ctx)
+                short = 0 if op == "&&" else 1
+                if isinstance(a, int) and int(bool(a)) == short:
+                    return short
+                if isinstance(a, int):
+                    b = self.ev(kids[1], env, ctx)
+                    return int(bool(b)) if isinstance(b, int) else None
+                env2 = dict(env)
+                b = self.ev(kids[1], env2, ctx)
+                joined = self._join(env, env2)
+                env.clear()
+                env.update(joined)
+                return short if isinstance(b, int) and int(bool(b)) == short else None
+            a = self.ev(kids[0], env, ctx)
+            b = self.ev(kids[1], env, ctx)
+            return self._binop(op, a, b)
+        if k == "CompoundAssignOperator" and len(kids) == 2:
+            key = self._lkey(kids[0], ctx)
+            cur = self.ev(kids[0], env, ctx)
+            r = self.ev(kids[1], env, ctx)
+            v = self._binop((n.get("opcode") or "=")[:-1], cur, r)
+            if key is None:
+                self._havoc(kids[0], env, ctx)
+            self._set(key, v, env, ctx)
+            return v
+        if k == "ConditionalOperator" and len(kids) == 3:
+            c = self.ev(kids[0], env, ctx)
+            if isinstance(c, int):
+                return self.ev(kids[1] if c else kids[2], env, ctx)
+            e1, e2 = dict(env), dict(env)
+            v1, v2 = self.ev(kids[1], e1, ctx), self.ev(kids[2], e2, ctx)
+            joined = self._join(e1, e2)
+            env.clear()
+            env.update(joined)
+            return v1 if v1 is not None and type(v1) is type(v2) and v1 == v2 else None
+        if k == "CXXOperatorCallExpr" and len(kids) >= 2:
+            nm = cfront.callee_name(n) or ""
+            args = kids[1:]
+            if nm in ("operator==", "operator!=") and len(args) == 2:
+                a, b = self.ev(args[0], env, ctx), self.ev(args[1], env, ctx)
+                if isinstance(a, str) and isinstance(b, str):
+                    return int((a == b) == (nm == "operator=="))
+                return None
+            if nm == "operator[]" and len(args) == 2:
+                a, b = self.ev(args[0], env, ctx), self.ev(args[1], env, ctx)
+                if isinstance(a, str) and isinstance(b, int) and 0 <= b <= len(a):
+                    return ord(a[b]) if b < len(a) else 0
+                return None
+            if nm in ("operator=", "operator+=") and len(args) == 2:
+                key = self._lkey(args[0], ctx)
+                cur = self.ev(args[0], env, ctx)
+                v = self.ev(args[1], env, ctx)
+                if nm == "operator+=":
+                    v = (cur + (v if isinstance(v, str) else chr(v))) if isinstance(cur, str) and (isinstance(v, str) or (isinstance(v, int) and 0 < v < 128)) else None
+                if key is None:
+                    self._havoc(args[0], env, ctx)
+                self._set(key, v if isinstance(v, str) else None, env, ctx)
+                return v if isinstance(v, str) else None
+            self._havoc(n, env, ctx)
+            return None
+        if k == "CXXConstructExpr":
+            qt = str(n.get("type", {}).get("qualType", ""))
+            vals = [self.ev(c, env, ctx) for c in kids]
+            for c in kids:
+                if self._by_ref(c) and not (len(kids) == 1):
+                    self._set(self._lkey(c, ctx), None, env, ctx)
+            if "string" in qt and "vector" not in qt:
+                if not kids:
+                    return ""
+                if len(kids) == 1 and isinstance(vals[0], str):
+                    return vals[0]
+            return None
+        if k == "CXXMemberCallExpr" and kids:
+            c = cfront.strip(kids[0])
+            if c.get("kind") == "MemberExpr" and _c_kids(c):
+                obj = _c_kids(c)[0]
+                meth = c.get("name")
+                if cfront.strip(obj).get("kind") == "CXXThisExpr":
+                    return self._call(meth, n, kids[1:], env, ctx, on_this=True)
+                ov = self.ev(obj, env, ctx)
+                for a in kids[1:]:
+                    self.ev(a, env, ctx)
+                    if self._by_ref(a):
+                        self._set(self._lkey(a, ctx), None, env, ctx)
+                if meth not in _C_CONST_METHODS:
+                    self._set(self._lkey(obj, ctx), None, env, ctx)
+                    return None
+                if isinstance(ov, str):
+                    if meth in ("size", "length"):
+                        return len(ov)
+                    if meth == "empty":
+                        return int(not ov)
+                    if meth in ("c_str", "data"):
+                        return ov
+                return None
+            self._havoc(n, env, ctx)
+            return None
+        if k == "CallExpr" and kids:
+            return self._call(cfront.callee_name(n), n, kids[1:], env, ctx, on_this=False)
+        if k == "DeclStmt":
+            for d in kids:
+                if d.get("kind") == "VarDecl" and d.get("name"):
+                    init = _c_kids(d)
+                    v = self.ev(init[-1], env, ctx) if init else None
+                    qt = str(d.get("type", {}).get("qualType", ""))
+                    if "&" in qt:
+                        v = None        # an alias: its value follows the object it is bound to
+                    elif "*" in qt and not (isinstance(v, str) or v == 0):
+                        v = None        # pointers: only NULL and string literals are values
+                    self._set(("l", d["name"]), v, env, ctx)
+                else:
+                    self._havoc(d, env, ctx)
+            return None
+        if k in ("BreakStmt", "ContinueStmt", "GotoStmt", "NullStmt"):
+            return None
+        self._havoc(n, env, ctx)
+        return None
+
+    @staticmethod
+    def _binop(op, a, b):
+        if isinstance(a, int) and isinstance(b, int) and op in _C_INT_OPS:
+            return _C_INT_OPS[op](a, b)
+        if isinstance(a, int) and isinstance(b, int) and op in ("/", "%") and b != 0 and a >= 0 and b > 0:
+            return a // b if op == "/" else a % b
+        return None
+
+    def _call(self, name, n, args, env, ctx, on_this):
+        d = self.lookup(name) if name else None
+        if d is not None and not cfront.has_body(d):
+            d = None
+        vals = [self.ev(a, env, ctx) for a in args]
+        ptypes = [str(c.get("type", {}).get("qualType", "")) for c in (d.get("inner", []) if d is not None else []) if c.get("kind") == "ParmVarDecl"]
+        for i, a in enumerate(args):
+            if self._by_ref(a):
+                pt = ptypes[i] if i < len(ptypes) else "&"
+                if "&" in pt and not pt.startswith("const "):
+                    self._set(self._lkey(a, ctx), None, env, ctx)
+                elif "&" not in pt and "*" in pt:
+                    self._set(self._lkey(a, ctx), None, env, ctx)      # an array that decays to a pointer
+        if d is None:
+            return None
+        is_method = d.get("kind") in ("CXXMethodDecl", "CXXConstructorDecl", "CXXDestructorDecl")
+        shares = is_method and (on_this or ctx["method"])       # a method called without an object from a method: same `this`
+        if id(d) in ctx["stack"] or len(ctx["stack"]) > 4:
+            if shares:
+                for key in [q for q in env if q[0] == "m"]:
+                    env.pop(key)
+            return None
+        mem = {q: v for q, v in env.items() if q[0] == "m"} if shares else {}
+        reach, ret, mem_out = self.run(d, vals, mem, ctx["stack"] + (id(d),))
+        if mem_out is None:
+            raise _CDead()
+        if shares:
+            for key in [q for q in env if q[0] == "m"]:
+                env.pop(key)
+            env.update(mem_out)
+        return ret
+
+    # -- functions -----------------------------------------------------------------------------------------------------------
+    def run(self, decl, argvals, mem=None, stack=None, named=None):
+        """(ids of the CFG nodes that can be reached, value returned (None: unknown), members at the normal exit (None: the
+        function never returns normally)) for a call with the given abstract arguments (positional, or by parameter name)"""
+        ccfg = self._cfg(decl)
+        declared, ul, um = self._scan(decl)
+        if not hasattr(self, "um"):
+            self.um = set()
+        self.um |= um
+        ctx = dict(declared=declared, ul=ul, stack=stack or (id(decl),),
+                   method=decl.get("kind") in ("CXXMethodDecl", "CXXConstructorDecl", "CXXDestructorDecl"))
+        env0 = {q: v for q, v in (mem or {}).items() if q[1] not in self.um}
+        params = cfront.params_of(decl)
+        for i, p in enumerate(params):
+            v = (named or {}).get(p, argvals[i] if i < len(argvals) else None)
+            if v is not None and p and p not in ul:
+                env0[("l", p)] = v
+        IN = {ccfg.entry.id: env0}
+        rets = []
+        work = [ccfg.entry.id]
+        while work:
+            i = work.pop()
+            self.budget -= 1
+            if self.budget < 0:
+                raise _TooBig()
+            n = ccfg.node(i)
+            env = dict(IN[i])
+            val = None
+            dead = False
+            try:
+                if n.kind == "stmt" and n.label == "catch":
+                    env = {}
+                elif n.kind in ("stmt", "switch") and n.c is not None:
+                    self.ev(n.c, env, ctx)
+                elif n.kind in ("branch", "loop"):
+                    val = self.ev(n.c, env, ctx) if n.c is not None else 1
+                elif n.kind == "return":
+                    kids = _c_kids(n.c) if n.c is not None else []
+                    rets.append(self.ev(kids[0], env, ctx) if kids else None)
+                elif n.kind == "raise":
+                    dead = True
+            except _CDead:
+                dead = True
+            if dead:
+                continue
+            for j in ccfg.g.successors(i):
+                labs = ccfg.g[i][j]["labels"]
+                if n.kind in ("branch", "loop") and isinstance(val, int) and ({"T", "F"} & labs) and ("T" if val else "F") not in labs:
+                    continue
+                new = self._join(IN.get(j), env)
+                if j not in IN or new != IN[j]:
+                    IN[j] = new
+                    work.append(j)
+        ret = None
+        if rets and all(r is not None and type(r) is type(rets[0]) and r == rets[0] for r in rets):
+            ret = rets[0]
+        out = IN.get(ccfg.exit.id)
+        return set(IN), ret, (None if out is None else {q: v for q, v in out.items() if q[0] == "m"})
+
+
+# ---------------------------------------------------------------------------
+def r03_1(chk, repo, sf_write, SFile_open, Rec_open, cfun, decls=None, lookup=None):
     """mode selection for append"""
     cfg = cfg_of(SFile_open)
     view = cfg.view()
@@ -966,28 +1434,62 @@ def r03_1(chk, repo, sf_write, SFile_open, Rec_open, cfun):
     ccfg = cfront.CCFG(ctor)
     cview = ccfg.view()
     demand = None
+    cparams = cfront.params_of(ctor)
+    p_dtype = "dtype" if "dtype" in cparams else (cparams[3] if len(cparams) > 3 else "dtype")
+    p_mode = "mode" if "mode" in cparams else (cparams[1] if len(cparams) > 1 else "mode")
+    demand_raises = []      # the throws of the constructor that are controlled by a test on the dtype argument
     for n in ccfg.nodes:
         if n.kind == "raise":
             ctl = cview.controlling_branches(n)
             txt = [cfront.render(b.c) for b, lab in ctl]
-            if any("dtype" in t for t in txt):
+            if any(re.search(r"\b%s\b" % re.escape(p_dtype), t) for t in txt):
+                demand_raises.append(n)
                 # outermost controlling branch mentioning mMode
                 for b, lab in ctl:
                     if "mMode" in cfront.render(b.c) and lab == "T":
                         demand = b.c
-    chk.ob("R03.1b", "Records::Records::dtype-demand-condition", demand is not None, "esutil/recfile/records.cpp",
-           "located the constructor condition under which a dtype is demanded: %s"
-           % (cfront.render(demand) if demand is not None else "NOT FOUND"))
-    if demand is not None:
+    # The same question decided without looking at how the condition is spelled: constant propagation through the constructor
+    # (and the helpers it calls) with the mode argument = the literal and the dtype argument = NULL, everything else unknown.
+    # The dtype is demanded for the mode when the throw is reached and the normal exit is not; it is not demanded when the
+    # throw cannot be reached.  Covers a mode that is first turned into action bits by a helper, early returns, switch ...
+    cprop = {}
+
+    def needs_dtype(m):
+        """True / False / None (not decided): does the C++ constructor throw for mode m unless a dtype is given?"""
+        if m not in cprop:
+            res = None
+            if demand_raises and decls is not None and lookup is not None:
+                try:
+                    reach, _, mem_out = _CConst(lookup, decls).run(ctor, [], named={p_mode: m, p_dtype: 0})
+                    hit = [r for r in demand_raises if r.id in reach]
+                    if not hit:
+                        res = False
+                    elif mem_out is None and all(r in demand_raises for r in ccfg.nodes if r.kind == "raise" and r.id in reach):
+                        res = True
+                except (_TooBig, AnalysisError, RecursionError, KeyError, TypeError, ValueError):
+                    res = None
+            if res is None and demand is not None:
+                res = eval_c_string_cond(demand, "mMode", m)
+            cprop[m] = res
+        return cprop[m]
+
+    located = demand is not None or (bool(origin) and all(needs_dtype(m) is not None for m, _ in origin))
+    chk.ob("R03.1b", "Records::Records::dtype-demand-condition", True if located else None, "esutil/recfile/records.cpp",
+           "the condition under which the constructor demands a dtype is decided for every mode that originates in the package: %s"
+           % (cfront.render(demand) if demand is not None else
+              ("by constant propagation through the constructor: %s" % {m: needs_dtype(m) for m, _ in sorted(origin)} if located
+               else "NOT RECOGNISED (%d throw(s) controlled by a test on `%s`)" % (len(demand_raises), p_dtype))))
+    if located:
         # which Recfile.open arm passes dtype?  the arm guarded by mode[0]=='r'
         for m, where in sorted(origin):
             reads = m[:1] == "r"
-            needs = eval_c_string_cond(demand, "mMode", m)
-            ok = reads or (needs is False)
+            needs = needs_dtype(m)
+            ok = True if (reads or needs is False) else (None if needs is None else False)
             chk.ob("R03.1b", "mode-literal::%s" % m, ok, where,
                    "package-originated mode %r: %s" % (m, "takes the read arm (dtype from header)" if reads else
                                                      ("C++ constructor demands a dtype for it but the write arm passes none"
-                                                      if needs else "write arm, no dtype demanded")))
+                                                      if needs else ("write arm, no dtype demanded" if needs is False else
+                                                                     "whether the C++ constructor demands a dtype for it is not decided"))))
     # (c) the read/create dispatch and the mode given to Recfile must use the
     # post-fallback mode: any `self._mode`-like attribute that is tested or
     # forwarded must be stored after the last fallback store on every path
@@ -1044,7 +1546,7 @@ def r03_1(chk, repo, sf_write, SFile_open, Rec_open, cfun):
     chk.ob("R03.1a", "esutil.sfile.SFile.open::fallback-reaches-constructor", verdict, SFile_open.where(),
            "append to a missing file (mode 'r+', path does not exist): the record file is constructed with a creating mode "
            "(%d such path(s), modes %s)" % (len(fb), sorted(got)))
-    if demand is not None:
+    if located:
         seen = set()
         for st in opaths:
             for e in _calls(st, "Recfile"):
@@ -1056,7 +1558,7 @@ def r03_1(chk, repo, sf_write, SFile_open, Rec_open, cfun):
                 if (m.value, has_dtype) in seen:
                     continue
                 seen.add((m.value, has_dtype))
-                needs = eval_c_string_cond(demand, "mMode", m.value)
+                needs = needs_dtype(m.value)
                 if not has_dtype and "**" in e["kw"] and needs is not False:
                     needs = None        # keywords passed through a mapping that is not known entry by entry
                 chk.ob("R03.1b", "ctor-mode::%s::dtype=%s" % (m.value, has_dtype), True if (has_dtype or needs is False) else (None if needs is None else False),
@@ -1153,7 +1655,10 @@ def r03_2(chk, repo, SFile_write):
     for _, _, callee in cands:
         if callee.qualname not in paths_of:
             try:
-                paths_of[callee.qualname] = _PX(repo).run(callee, {})
+                # attributes of the handle that are caches of the stored dtype (always stored together with it as a function of
+                # it) read as that function of self._dtype
+                cached = _derived_attrs(repo, callee)
+                paths_of[callee.qualname] = _PX(repo).run(callee, {}, st=_St(heap=cached) if cached else None)
             except _TooBig:
                 paths_of[callee.qualname] = None
     checkers = [t for t in cands if paths_of[t[2].qualname] and any(
@@ -1276,6 +1781,243 @@ def r03_2(chk, repo, SFile_write):
                "a text append is accepted only after kind and item size of every field (the type string without its "
                "byte-order character) compared equal with the stored dtype, on each of the %d accepting path(s)%s"
                % (len(tpaths), (": " + why) if why else ""))
+
+
+# -- caches of the stored dtype ------------------------------------------------------------------------------------------------
+_PURE_BUILTINS = ("zip", "len", "enumerate", "list", "tuple", "sorted", "iter", "reversed", "range", "str", "repr", "isinstance", "id", "bool")
+
+
+def _setattr_table(fi, call):
+    """for `setattr(self, K, V)`: {attribute: value expression} of the stores it performs -- K a string constant, or K, V the
+    targets of an enclosing `for K, V in <module constant table of (name, value) pairs>` (also `.items()` of a constant dict);
+    None when the attributes it stores are not known"""
+    if len(call.args) != 3 or call.keywords:
+        return None
+    k, v = call.args[1], call.args[2]
+    if isinstance(k, ast.Constant) and isinstance(k.value, str):
+        return {k.value: v}
+    if not (isinstance(k, ast.Name) and isinstance(v, ast.Name)):
+        return None
+    for loop in ast.walk(fi.node):
+        if not (isinstance(loop, ast.For) and any(x is call for b in loop.body for x in ast.walk(b))):
+            continue
+        t = loop.target
+        if not (isinstance(t, (ast.Tuple, ast.List)) and len(t.elts) == 2 and all(isinstance(x, ast.Name) for x in t.elts)
+                and t.elts[0].id == k.id and t.elts[1].id == v.id):
+            return None
+        rebinds = [x for b in loop.body for x in ast.walk(b) if isinstance(x, ast.Name) and x.id in (k.id, v.id) and not isinstance(x.ctx, ast.Load)]
+        if rebinds:
+            return None
+        it = loop.iter
+        items = False
+        if isinstance(it, ast.Call) and isinstance(it.func, ast.Attribute) and it.func.attr == "items" and not it.args:
+            it, items = it.func.value, True
+        tab = _module_const(fi.module, it.id) if isinstance(it, ast.Name) else (it if _is_literal(it) else None)
+        if tab is None:
+            return None
+        out = {}
+        if items:
+            d = _as_dict_literal(tab)
+            if d is None or not all(isinstance(x.value, str) for x in d.keys):
+                return None
+            for x, y in zip(d.keys, d.values):
+                out[x.value] = y
+            return out
+        if not isinstance(tab, (ast.Tuple, ast.List)):
+            return None
+        for e in tab.elts:
+            if not (isinstance(e, (ast.Tuple, ast.List)) and len(e.elts) == 2 and isinstance(e.elts[0], ast.Constant) and isinstance(e.elts[0].value, str)):
+                return None
+            out[e.elts[0].value] = e.elts[1]
+        return out
+    return None
+
+
+_derived_memo = {}
+
+
+def _derived_attrs(repo, fi, base="_dtype"):
+    key = (id(repo), fi.qualname, base)
+    if key not in _derived_memo:
+        _derived_memo[key] = _derived_attrs_(repo, fi, base)
+    return {k: copy.deepcopy(v) for k, v in _derived_memo[key].items()}
+
+
+def _derived_attrs_(repo, fi, base="_dtype"):
+    """{'self.A': E} for the attributes A of the class of fi that are caches of the stored dtype: E is an expression over
+    `self.<base>` only, and on every path of every method of the class `self.A` and `self.<base>` are stored together -- both
+    None, or self.A = E(the new self.<base>) -- with no call to a method of the class in between; stores through setattr are
+    resolved entry by entry (anything not resolved: no cache is recognised); nothing outside the class stores either attribute
+    and the cached object is not mutated in place.  So wherever `self.<base>` is not None, `self.A` reads as E(self.<base>).
+    (A path that is left by an exception between the two stores is not considered.)"""
+    if not fi.cls:
+        return {}
+    methods = [f for f in repo.funcs.values() if f.module is fi.module and f.cls == fi.cls]
+    mnames = {f.name for f in methods}
+    bkey = "self." + base
+
+    def stores(f):
+        return {x.attr for x in ast.walk(f.node) if isinstance(x, ast.Attribute) and isinstance(x.ctx, (ast.Store, ast.Del))
+                and isinstance(x.value, ast.Name) and x.value.id == "self"}
+
+    dyn = []        # attribute tables of the setattr(self, ..) calls of the class
+    for f in methods:
+        for x in ast.walk(f.node):
+            if isinstance(x, ast.Attribute) and x.attr == "__dict__":
+                return {}
+            if isinstance(x, ast.Call) and call_name(x) in ("setattr", "__setattr__", "delattr", "vars"):
+                if call_name(x) == "vars" and not x.args:
+                    continue
+                tab = _setattr_table(f, x) if (call_name(x) == "setattr" and x.args and isinstance(x.args[0], ast.Name) and x.args[0].id == "self") else None
+                if tab is None:
+                    if call_name(x) == "setattr" and x.args and isinstance(x.args[0], ast.Name) and x.args[0].id != "self" \
+                            and len(x.args) == 3 and isinstance(x.args[1], ast.Constant) and x.args[1].value != base:
+                        continue
+                    return {}
+                dyn.append(tab)
+    # only the attributes the function (with the helpers it calls) reads are of interest
+    _, texts = _raise_and_attrs(repo, fi, set(), 0)
+    reads = {t.split(".", 1)[1] for t in texts if t.startswith("self.") and t.count(".") == 1} - {base}
+    if not any(reads & stores(f) for f in methods):
+        return {}
+    interest = reads | {base}
+    memo = {}
+
+    def touches(f, depth=0):
+        """does f (with the helpers of the class it calls) store an attribute of interest?"""
+        if f.qualname in memo:
+            return memo[f.qualname]
+        memo[f.qualname] = False
+        r = bool(interest & stores(f))
+        if not r and depth < 3:
+            for x in ast.walk(f.node):
+                if isinstance(x, ast.Call):
+                    c = _callee_attr_funcs(repo, f, x)
+                    if c is not None and c is not f and touches(c, depth + 1):
+                        r = True
+                        break
+        memo[f.qualname] = r
+        return r
+
+    def paths(f):
+        return [st for k, _, st in _PX(repo, want=touches, budget=60000).run(f, {}) if k == "return"]
+
+    storing = [f for f in methods if base in stores(f)]
+    cands = {}
+
+    def anti(v, hb):
+        """v with every occurrence of the new value of self.<base> written as self.<base>"""
+        tb = norm(hb)
+
+        class R(ast.NodeTransformer):
+            def generic_visit(self, n):
+                if isinstance(n, ast.expr) and norm(n) == tb:
+                    return ast.parse(bkey, mode="eval").body
+                return super().generic_visit(n)
+        return R().visit(copy.deepcopy(v))
+
+    def over_base_only(e):
+        if re.search(r"__(unk|ret|i)\d+__", norm(e)):
+            return False
+        copies = {id(x.func) for x in ast.walk(e) if isinstance(x, ast.Call) and isinstance(x.func, ast.Name)
+                  and x.func.id in ("list", "tuple") and len(x.args) == 1 and not x.keywords}
+        for x in ast.walk(e):
+            if isinstance(x, ast.Name) and x.id != "self" and id(x) not in copies:
+                return False
+            if isinstance(x, ast.Attribute) and isinstance(x.value, ast.Name) and x.value.id == "self" and x.attr != base:
+                return False
+            if isinstance(x, ast.Call) and id(x.func) not in copies:
+                return False
+        return bkey in {norm(x) for x in ast.walk(e) if isinstance(x, ast.Attribute)}
+
+    paths_of = {}
+    for f in storing:
+        try:
+            paths_of[f.qualname] = paths(f)
+        except _TooBig:
+            return {}
+    # candidates: attributes stored on a path together with the base as an expression over its new value
+    for f in storing:
+        for st in paths_of[f.qualname]:
+            hb = st.heap.get(bkey)
+            if hb is None or _is_none(hb):
+                continue
+            for k, v in st.heap.items():
+                if k.startswith("self.") and k.count(".") == 1 and "[" not in k and k != bkey and k[5:] in reads and not _is_none(v):
+                    e = anti(v, hb)
+                    if over_base_only(e) and norm(e) != bkey:
+                        cands.setdefault(k, set()).add(norm(e))
+    out = {}
+    for akey, exprs in cands.items():
+        if len(exprs) != 1:
+            continue
+        etext = next(iter(exprs))
+        attr = akey.split(".", 1)[1]
+        good = True
+        # every method that stores either attribute keeps the pair together
+        for f in [m for m in methods if {attr, base} & stores(m)]:
+            if f.qualname not in paths_of:
+                try:
+                    paths_of[f.qualname] = paths(f)
+                except _TooBig:
+                    good = False
+                    break
+            for st in paths_of[f.qualname]:
+                hb = ha = None
+
+                def consistent():
+                    if hb is None and ha is None:
+                        return True
+                    if hb is None or ha is None:
+                        return False
+                    if _is_none(hb):
+                        return True
+                    return norm(anti(ha, hb)) == etext
+
+                for e in st.events:
+                    if e["kind"] == "store" and e["name"] == bkey:
+                        hb = e["value"]
+                    elif e["kind"] == "store" and e["name"] == akey:
+                        ha = e["value"]
+                    elif e["kind"] == "store" and (e["name"].startswith(bkey + ".") or e["name"].startswith(akey + ".")
+                                                   or e["name"].startswith(bkey + "[") or e["name"].startswith(akey + "[")):
+                        good = False
+                    elif e["kind"] == "call" and (e["dotted"] or "").startswith("self.") and e["name"] in mnames and not consistent():
+                        good = False
+                if not consistent():
+                    good = False
+            if not good:
+                break
+        # setattr tables: both or neither, and then the base is reset to None
+        for tab in dyn:
+            if (attr in tab) != (base in tab) or (base in tab and not _is_none(tab[base])):
+                good = False
+        # nobody else stores them; the cached object is not changed in place
+        for g in repo.funcs.values():
+            inside = g.module is fi.module and g.cls == fi.cls
+            aliases = {"self." + attr}
+            for x in ast.walk(g.node):
+                if isinstance(x, ast.Assign) and len(x.targets) == 1 and isinstance(x.targets[0], ast.Name) and norm(x.value) == "self." + attr and inside:
+                    aliases.add(x.targets[0].id)
+            for x in ast.walk(g.node):
+                if isinstance(x, ast.Attribute) and x.attr in (attr, base) and isinstance(x.ctx, (ast.Store, ast.Del)) \
+                        and not (inside and isinstance(x.value, ast.Name) and x.value.id == "self"):
+                    good = False
+                if not inside:
+                    continue
+                if isinstance(x, ast.Subscript) and isinstance(x.ctx, (ast.Store, ast.Del)) and norm(x.value) in aliases:
+                    good = False
+                if isinstance(x, ast.AugAssign) and norm(x.target) in aliases and norm(x.target) != "self." + attr:
+                    good = False
+                if isinstance(x, ast.Call) and isinstance(x.func, ast.Attribute) and norm(x.func.value) in aliases \
+                        and x.func.attr not in _READ_ONLY_METHODS:
+                    good = False
+                if isinstance(x, ast.Call) and not (isinstance(x.func, ast.Name) and x.func.id in _PURE_BUILTINS) \
+                        and any(norm(a) in aliases for a in list(x.args) + [k.value for k in x.keywords]):
+                    good = False
+        if good:
+            out[akey] = ast.parse(etext, mode="eval").body
+    return out
 
 
 def _is_compat_checker(repo, fi, direct=False):
@@ -1444,6 +2186,16 @@ def _type_cover(x):
         return None
     names = {norm(y) for y in ast.walk(x) if isinstance(y, (ast.Attribute, ast.Name))}
     if not ("self._dtype" in names and ("data.dtype" in names or "data" in names)):
+        # the dtype of the new rows compared with some other state of the handle (self.<attribute>) or with a value that is not
+        # known: this may be the stored dtype in a form that is not recognised (a cache, a copy kept under another name)
+        def about(e):
+            ns = {norm(y) for y in ast.walk(e) if isinstance(y, (ast.Attribute, ast.Name))}
+            chunk = "data.dtype" in ns or "data" in ns
+            state = any(n.startswith("self.") for n in ns) or any(re.match(r"__(unk|ret)\d+__$", n) for n in ns)
+            return chunk, state
+        (c1, s1), (c2, s2) = about(x.left), about(x.comparators[0])
+        if (c1 and not s1 and s2 and not c2) or (c2 and not s2 and s1 and not c1):
+            return "unknown"
         return None
     cls = _cmp_class(x)
     if cls is None:
@@ -1463,7 +2215,61 @@ def _text_in(v, texts):
     return v is not None and norm(v) in texts
 
 
-def r03_3(chk, repo, measures):
+def _seq_elts(e):
+    """the elements of a list / tuple expression built from literals: [a, b], (a, b), x + y, list(x), tuple(x); None if not all known"""
+    if isinstance(e, (ast.List, ast.Tuple)):
+        return None if any(isinstance(x, ast.Starred) for x in e.elts) else list(e.elts)
+    if isinstance(e, ast.BinOp) and isinstance(e.op, ast.Add):
+        l, r = _seq_elts(e.left), _seq_elts(e.right)
+        return None if l is None or r is None else l + r
+    if isinstance(e, ast.Call) and isinstance(e.func, ast.Name) and e.func.id in ("list", "tuple") and len(e.args) == 1 and not e.keywords:
+        return _seq_elts(e.args[0])
+    return None
+
+
+def _first_line_term(t):
+    """the expression that makes up the first line of a text: the first element of `'\\n'.join([...])`, the first term of
+    `a + '\\n' + ...`; None when the text is built in a way that is not recognised"""
+    if isinstance(t, ast.Call) and isinstance(t.func, ast.Attribute) and t.func.attr == "join" and len(t.args) == 1 and not t.keywords \
+            and isinstance(t.func.value, ast.Constant) and t.func.value.value == "\n":
+        elts = _seq_elts(t.args[0])
+        if elts:
+            first = elts[0]
+            if not (isinstance(first, ast.Constant) and isinstance(first.value, str) and "\n" in first.value):
+                return first
+        return None
+    if isinstance(t, ast.BinOp) and isinstance(t.op, ast.Add):
+        terms = []
+
+        def flat(x):
+            if isinstance(x, ast.BinOp) and isinstance(x.op, ast.Add):
+                flat(x.left)
+                flat(x.right)
+            else:
+                terms.append(x)
+        flat(t)
+        if len(terms) >= 2 and not isinstance(terms[0], ast.Constant) and isinstance(terms[1], ast.Constant) \
+                and isinstance(terms[1].value, str) and terms[1].value.startswith("\n"):
+            return terms[0]
+    return None
+
+
+def _py_printf_operand(v):
+    """the one value an expression recognised by _py_printf formats"""
+    if isinstance(v, ast.BinOp) and isinstance(v.op, ast.Mod):
+        r = v.right
+        if isinstance(r, ast.Tuple):
+            return r.elts[0] if len(r.elts) == 1 else None
+        return None if isinstance(r, ast.Dict) else r
+    if isinstance(v, ast.Call) and isinstance(v.func, ast.Attribute) and v.func.attr == "format":
+        return v.args[0] if len(v.args) == 1 and not v.keywords else (v.keywords[0].value if len(v.keywords) == 1 and not v.args else None)
+    if isinstance(v, ast.JoinedStr):
+        fv = [x for x in v.values if isinstance(x, ast.FormattedValue)]
+        return fv[0].value if len(fv) == 1 else None
+    return None
+
+
+def r03_3(chk, repo, measures, first_fmts=None):
     """first write vs append: decided on the paths of _write_header (new helpers followed, the calls the rule speaks about
     -- _make_header, _update_size, _get_size_string -- kept as events) and of _update_size"""
     wh = repo.func("esutil.sfile.SFile._write_header")
@@ -1507,10 +2313,37 @@ def r03_3(chk, repo, measures):
         sizes = sorted({norm(st.heap["self._size"]) if "self._size" in st.heap else "<not set>" for st in fw})
         chk.ob("R03.3c", "esutil.sfile.SFile._write_header::first-size", bool(fw) and all(s in CHUNK[:2] for s in sizes),
                wh.where(), "first write records _size = data.size (found %s)" % sizes)
-        strs = sorted({norm(e["args"][0]) if e["args"] else "<no arg>" for st in fw for e in _calls(st, "_get_size_string")})
-        ok = bool(fw) and all(len(_calls(st, "_get_size_string")) == 1 for st in fw) and all(s in CHUNK[:2] for s in strs)
+        # the number in the SIZE line of a new file: the operand of the first line of the text handed to the header writer (the
+        # line is produced by _get_size_string, or formatted in place / by another helper: then the format is handed to R03.4);
+        # when the first line of the text is not recognised, the argument of the _get_size_string call on the path
+        strs, verdicts = set(), []
+        for st, e in hw:
+            line0 = _first_line_term(e["args"][0]) if e["args"] else None
+            operand = None
+            if isinstance(line0, ast.Call) and call_name(line0) == "_get_size_string" and len(line0.args) == 1 and not line0.keywords:
+                operand = line0.args[0]
+            elif line0 is not None and _py_printf(line0) is not None:
+                operand = _py_printf_operand(line0)
+                if operand is not None and first_fmts is not None:
+                    first_fmts.add(_py_printf(line0))
+                    if not _calls(st, "_get_size_string"):
+                        measures.append(("SFile first write (SIZE line)", operand, "data", wh.where()))
+            cs = _calls(st, "_get_size_string")
+            if len(cs) > 1:
+                strs.add("<%d _get_size_string calls>" % len(cs))
+                verdicts.append(False)
+                continue
+            if operand is None and len(cs) == 1 and cs[0]["args"]:
+                operand = cs[0]["args"][0]
+            if operand is None:
+                strs.add("<SIZE line not recognised in the header text>")
+                verdicts.append(None)
+                continue
+            strs.add(norm(operand))
+            verdicts.append(norm(operand) in CHUNK[:2])
+        ok = False if (not fw or any(v is False for v in verdicts)) else (None if any(v is None for v in verdicts) else True)
         chk.ob("R03.3c", "esutil.sfile.SFile._write_header::first-size-string", ok,
-               wh.where(), "SIZE line of a new file is formatted from data.size (found %s)" % strs)
+               wh.where(), "SIZE line of a new file is formatted from data.size (found %s)" % sorted(strs))
         # header retention: user header is only consulted when building a *new* header
         mh = [(st, e) for _, _, st in paths for e in _calls(st, "_make_header")]
         ok = bool(mh) and all(_fact(st, first, e["nfacts"]) is True for st, e in mh)
@@ -1768,7 +2601,7 @@ def _py_printf(v):
     return None
 
 
-def r03_4(chk, repo, cfun, ceff):
+def r03_4(chk, repo, cfun, ceff, first_fmts=()):
     """SIZE line: python writer vs C++ in-place updater; rewind -> fprintf -> fseek(END)"""
     gs = repo.func("esutil.sfile.SFile._get_size_string")
     chk.analysed_unit(gs.qualname)
@@ -1777,6 +2610,8 @@ def r03_4(chk, repo, cfun, ceff):
     except _TooBig:
         rets = []
     pyfmts = {_py_printf(v) for v in rets}
+    if first_fmts:
+        pyfmts = set(first_fmts)       # the line of a new file is formatted by _write_header itself: that is the format that counts
     pyfmt = next(iter(pyfmts)) if len(pyfmts) == 1 else None
     urc = cfun["Records::update_row_count"]
     # the format of the line the C++ updater writes: the literal of the fprintf / snprintf that takes the row count
@@ -2277,13 +3112,22 @@ def r03_6(chk, repo, sf_write, cfun):
     ok = bool(ctor)
     nwrite = 0
     params = set(sf_write.params[:2])
+
+    def first_arg(ev_, qualname, default):
+        """the first argument of a call: positional, or passed under the name of the callee's first parameter"""
+        if ev_["args"]:
+            return ev_["args"][0]
+        callee = repo.funcs.get(qualname)
+        ps = [p for p in (callee.params[1:] if callee is not None else []) if not p.startswith("*")]
+        return ev_["kw"].get(ps[0] if ps else default)
+
     for st, e in ctor:
         ws = [w for w in _calls(st, "write") if isinstance(w["recv"], ast.Call) and call_name(w["recv"]) == "SFile"]
         nwrite += len(ws)
         ok = ok and len(ws) == 1
         for w in ws:
-            a0 = w["args"][0] if w["args"] else None
-            f0 = e["args"][0] if e["args"] else None
+            a0 = first_arg(w, "%s.SFile.write" % sf_write.module.name, "data")
+            f0 = first_arg(e, "%s.SFile.__init__" % sf_write.module.name, "filename")
             h0 = w["kw"].get("header", w["args"][1] if len(w["args"]) > 1 else None)
             ok = ok and isinstance(a0, ast.Name) and isinstance(f0, ast.Name) and {a0.id, f0.id} == params \
                 and h0 is not None and _header_origin(h0) is True
